@@ -463,3 +463,60 @@ class CFG:
             ln = getattr(nd.stmt or nd.ast, "lineno", None)
             out.append(f"{nd.kind}@{ln}")
         return out
+
+
+# ---------------------------------------------------------------------------------- extra path queries
+def _reach(cfg: CFG, starts, removed_nodes=frozenset(), removed_edges=frozenset()):
+    seen = set()
+    stack = [s for s in starts if s not in removed_nodes]
+    while stack:
+        n = stack.pop()
+        if n in seen:
+            continue
+        seen.add(n)
+        for s in cfg.succ[n]:
+            if s in removed_nodes or (n, s) in removed_edges:
+                continue
+            stack.append(s)
+    return seen
+
+
+def normally_dominates(cfg: CFG, a_nodes, b: int) -> bool:
+    """Every path entry->b passes through some a in a_nodes AND leaves it by a non-exceptional edge."""
+    a_nodes = set(a_nodes)
+    if b in a_nodes:
+        return True
+    removed = {(a, s) for a in a_nodes for s in cfg.succ[a] if cfg.elabel.get((a, s)) != "exc"}
+    # keep exceptional edges out of a: a path using one of them reaches b without a having completed
+    return b not in _reach(cfg, [cfg.entry], removed_edges=removed)
+
+
+def must_pass_after(cfg: CFG, start_nodes, through_nodes, include_raise_exit=True) -> list[int] | None:
+    """After any start node completes normally, every path to an exit passes a `through` node.
+
+    Returns None when the obligation holds, else a witness path (list of node ids) from a start node to an exit
+    that avoids all `through` nodes.
+    """
+    through = set(through_nodes)
+    targets = {cfg.exit} | ({cfg.raise_exit} if include_raise_exit else set())
+    for s in start_nodes:
+        firsts = [x for x in cfg.succ[s] if cfg.elabel.get((s, x)) != "exc"]
+        prev = {}
+        stack = []
+        for f in firsts:
+            if f not in through:
+                prev[f] = s
+                stack.append(f)
+        while stack:
+            n = stack.pop()
+            if n in targets:
+                path = [n]
+                while path[-1] != s:
+                    path.append(prev[path[-1]])
+                return list(reversed(path))
+            for x in cfg.succ[n]:
+                if x in prev or x in through or x == s:
+                    continue
+                prev[x] = n
+                stack.append(x)
+    return None
